@@ -311,6 +311,25 @@ theorem C15_T3_zero_keypoints_rejected (a : Activation) (σ : ℚ → ℚ) (red 
     rw [verifyCdf_no_keypoints _ _ _ _ _ hf]
     rfl
 
+/-- **C15/T3, sparsity factor below 1 (fixed finding F-C14-a, 1677739 / 75478be).** `CDF(sparsity_factor=f)`
+and `cdf_fn(…, sparsity_factor=f)` with `f < 1` (zero or negative; `layerCallZ` / `cdfFnZ` take the factor as
+the Python `int`) are rejected with a `ValueError` — before the fixes factor 0 was a `ZeroDivisionError` —
+and without keypoints both reject for EVERY integer factor. -/
+theorem C15_T3_bad_sparsity_rejected (a : Activation) (σ : ℚ → ℚ) (red : Reduction) (f : Int) (U : Nat)
+    (scale : List ℚ) (scaling : Option (List (List (List ℚ)))) (kernel : List (List (List ℚ))) (K W : Nat)
+    (x : List ℚ) :
+    (f < 1 → layerCallZ a σ red f U scale kernel K W x = .error .valueError ∧
+      cdfFnZ a σ red f U scaling kernel K W x = .error .valueError) ∧
+    layerCallZ a σ red f U scale kernel 0 W x = .error .valueError ∧
+      cdfFnZ a σ red f U scaling kernel 0 W x = .error .valueError := by
+  refine ⟨fun hf => ⟨layerCallZ_lt hf .., cdfFnZ_lt hf ..⟩, ?_, ?_⟩
+  · simp [layerCallZ, bind, Except.bind]
+  · by_cases hf : f < 1
+    · exact cdfFnZ_lt hf ..
+    · have hf1 : 1 ≤ f := by omega
+      rw [cdfFnZ_pos hf1]
+      exact (C15_T3_zero_keypoints_rejected a σ red f.toNat U scale scaling kernel W x).2 (by omega)
+
 /-! ## T2 — CDF layer and `cdf_fn`: outputs in `[0, 1]`, non-decreasing in every input
 
 `entry out r u` is entry `(r, u)` of the returned tensor (`(input_dim / factor, units)` for `'none'`,
@@ -416,6 +435,43 @@ theorem C15_T2_constrained_layer_monotone (a : Activation) (σ : ℚ → ℚ) (h
     entry out r u ≤ entry out' r u :=
   C15_T2_layer_monotone a σ hσ red f U _ kernel K W x x' out out'
     (C15_T2_constraint_makes_scaling_nonneg raw) hl hle h h' r u
+
+/-- **C15/T2 from the `int` entry points.** Whatever integer `sparsity_factor` the caller passes: if the
+layer / the function returns at all, the factor was `≥ 1` and the output lies in `[0, 1]` (the statements
+above apply to `f.toNat`; likewise the monotonicity theorems). -/
+theorem C15_T2_bounded_int (a : Activation) (σ : ℚ → ℚ) (hσ : SigmoidLike σ) (red : Reduction) (f : Int) (U : Nat)
+    (scale : List ℚ) (scaling : Option (List (List (List ℚ)))) (kernel : List (List (List ℚ))) (K W : Nat)
+    (x : List ℚ) (out : List (List ℚ)) :
+    (layerCallZ a σ red f U scale kernel K W x = .ok out → 1 ≤ f ∧ ∀ row ∈ out, ∀ v ∈ row, 0 ≤ v ∧ v ≤ 1) ∧
+    (cdfFnZ a σ red f U scaling kernel K W x = .ok out → 1 ≤ f ∧ ∀ row ∈ out, ∀ v ∈ row, 0 ≤ v ∧ v ≤ 1) := by
+  constructor
+  · intro h
+    obtain ⟨hf, h'⟩ := layerCallZ_ok h
+    exact ⟨hf, C15_T2_layer_bounded a σ hσ red f.toNat U scale kernel K W x out h'⟩
+  · intro h
+    obtain ⟨hf, h'⟩ := cdfFnZ_ok h
+    exact ⟨hf, C15_T2_fn_bounded a σ hσ red f.toNat U scaling kernel K W x out h'⟩
+
+/-- **C15/T2, monotone, from the `int` entry points.** -/
+theorem C15_T2_layer_monotone_int (a : Activation) (σ : ℚ → ℚ) (hσ : SigmoidLike σ) (red : Reduction) (f : Int)
+    (U : Nat) (scale : List ℚ) (kernel : List (List (List ℚ))) (K W : Nat) (x x' : List ℚ)
+    (out out' : List (List ℚ)) (hs : ∀ i, 0 ≤ bgetR scale i) (hl : x.length = x'.length)
+    (hle : ∀ i, getR x i ≤ getR x' i)
+    (h : layerCallZ a σ red f U scale kernel K W x = .ok out)
+    (h' : layerCallZ a σ red f U scale kernel K W x' = .ok out') (r u : Nat) :
+    entry out r u ≤ entry out' r u :=
+  C15_T2_layer_monotone a σ hσ red f.toNat U scale kernel K W x x' out out' hs hl hle
+    (layerCallZ_ok h).2 (layerCallZ_ok h').2 r u
+
+theorem C15_T2_fn_monotone_int (a : Activation) (σ : ℚ → ℚ) (hσ : SigmoidLike σ) (red : Reduction) (f : Int)
+    (U : Nat) (scaling : Option (List (List (List ℚ)))) (loc : List (List (List ℚ))) (K W : Nat) (x x' : List ℚ)
+    (out out' : List (List ℚ)) (hs : ∀ sc, scaling = some sc → ∀ i k j, 0 ≤ bget3 sc i k j)
+    (hl : x.length = x'.length) (hle : ∀ i, getR x i ≤ getR x' i)
+    (h : cdfFnZ a σ red f U scaling loc K W x = .ok out)
+    (h' : cdfFnZ a σ red f U scaling loc K W x' = .ok out') (r u : Nat) :
+    entry out r u ≤ entry out' r u :=
+  C15_T2_fn_monotone a σ hσ red f.toNat U scaling loc K W x x' out out' hs hl hle
+    (cdfFnZ_ok h).2 (cdfFnZ_ok h').2 r u
 
 /-- **Counter-witness (why non-negative scaling is a hypothesis).** `input_scaling_type='fixed'` with a
 negative `input_scaling_init` (or `input_scaling_monotonicity='none'`) is not constrained: the layer is
